@@ -869,6 +869,7 @@ class World(object):
         self.accepted_rerun = True
         self.error_processed_while_not_canceling = False
         self.rerun_selected = self.ledger.on_rerun(reqs, self.snap["state"], before["state"]["sequence"])
+        self.check_rerun_touch(before["state"], self.snap["state"])
         self.rerun_from = wfb
         self.cancel_req = False
         self.pause_req = False
@@ -878,6 +879,36 @@ class World(object):
         self.rendered = False
         self.bump("fault_rerun")
         return True
+
+    def check_rerun_touch(self, a, b):
+        """C17: a rerun may reopen (drop the terminal flag of) only the requested executions, what
+        follows from them, and executions that still have a satisfied transition to continue from;
+        an execution that completed elsewhere is left alone."""
+        L = self.ledger
+        by_rec = L.latest_exec_by_record()
+        sel = self.rerun_selected or []
+        allowed = set()
+        for x in sel:
+            allowed.add(x.xid)
+            allowed |= L.descendants(x)
+        selected_idx = set((b.get("reruns") or [[]])[-1])
+        for i, ra in enumerate(a["sequence"]):
+            rb = b["sequence"][i]
+            if ra.get("term") and not rb.get("term"):
+                if i in selected_idx or any(v for v in (ra.get("next") or {}).values()):
+                    continue
+                x = by_rec.get(i)
+                if x is None:
+                    # an engine command record: belongs to the execution it was issued from
+                    pidx = list((ra.get("prev") or {}).values())
+                    x = by_rec.get(pidx[0]) if pidx else None
+                    if x is None:
+                        continue
+                if x.xid in allowed or L.rerun_loose:
+                    continue
+                self.report("C17", "nothing_repeated", "the rerun reopened record #%d (%s on route %s), which is neither "
+                            "requested nor downstream of a requested execution: its terminal flag (and with it its "
+                            "contribution to the output) is gone" % (i, ra.get("id"), ra.get("route")))
 
     def op_restart(self):
         if self.c is None:
